@@ -878,6 +878,36 @@ func ruleLineStarts(c *Ctx) {
 		}
 	}
 	isIntSlice := func(t types.Type) bool { return types.TypeString(t.Underlying(), nil) == "[]int" }
+	isStrSlice := func(t types.Type) bool { return types.TypeString(t.Underlying(), nil) == "[]string" }
+	// which list of strings an element address belongs to: the field it was loaded from, or the value itself
+	listOf := func(ia *ssa.IndexAddr) any {
+		if u, ok := ia.X.(*ssa.UnOp); ok && u.Op == token.MUL {
+			if fa, ok := u.X.(*ssa.FieldAddr); ok {
+				return fieldVarOfAddr(fa)
+			}
+		}
+		return ia.X
+	}
+	transformedBy := func(v ssa.Value) string {
+		bad := ""
+		for w := range backSlice(v) {
+			call, ok := w.(*ssa.Call)
+			if !ok {
+				continue
+			}
+			if _, isBuiltin := call.Call.Value.(*ssa.Builtin); isBuiltin {
+				continue
+			}
+			if types.TypeString(call.Type(), nil) == "string" {
+				bad = "a function value"
+				if cal := call.Call.StaticCallee(); cal != nil {
+					bad = funcName(cal)
+				}
+			}
+		}
+		return bad
+	}
+	measured := map[any]bool{} // the lists of pieces whose elements are measured for the offsets
 	n := 0
 	var fns []*ssa.Function
 	for f := range region {
@@ -903,26 +933,36 @@ func ruleLineStarts(c *Ctx) {
 					continue
 				}
 				n++
-				bad := ""
+				bad := transformedBy(val)
 				for v := range backSlice(val) {
-					call, ok := v.(*ssa.Call)
-					if !ok {
-						continue
-					}
-					if _, isBuiltin := call.Call.Value.(*ssa.Builtin); isBuiltin {
-						continue
-					}
-					if types.TypeString(call.Type(), nil) == "string" {
-						name := "a function value"
-						if cal := call.Call.StaticCallee(); cal != nil {
-							name = funcName(cal)
+					if u, ok := v.(*ssa.UnOp); ok && u.Op == token.MUL {
+						if ia, ok := u.X.(*ssa.IndexAddr); ok && isStrSlice(ia.X.Type()) {
+							measured[listOf(ia)] = true
 						}
-						bad = name
 					}
 				}
 				c.check(bad == "", "C01-LINES", funcName(f), "line starts are sums of lengths of untransformed pieces of the text", ins.Pos(),
 					"no transformed copy of a line feeds the offsets",
 					"an offset stored in the table of line starts depends on the result of "+bad+" (a transformed copy of a piece of the text): its length is not the number of bytes the piece occupies, so the following line starts drift and ranged edits are spliced at the wrong byte")
+			}
+		}
+	}
+	// the pieces that are measured are not overwritten in place with transformed copies either
+	for _, f := range fns {
+		for _, b := range f.Blocks {
+			for _, ins := range b.Instrs {
+				st, ok := ins.(*ssa.Store)
+				if !ok {
+					continue
+				}
+				ia, ok := st.Addr.(*ssa.IndexAddr)
+				if !ok || !isStrSlice(ia.X.Type()) || !measured[listOf(ia)] {
+					continue
+				}
+				bad := transformedBy(st.Val)
+				c.check(bad == "", "C01-LINES", funcName(f), "the pieces measured for the line starts are not replaced by transformed copies", ins.Pos(),
+					"the element stored is an untransformed piece of the text",
+					"an element of the list of lines whose lengths are summed into the table of line starts is overwritten with the result of "+bad+": the sum no longer counts the bytes the line occupies in the text, so the following line starts drift and ranged edits are spliced at the wrong byte")
 			}
 		}
 	}
@@ -2089,4 +2129,250 @@ func ruleResolvedTreeReadOnly(c *Ctx) {
 		}
 	}
 	c.census("TREE-RO", "accesses to a resolved tree's fields in package server", nReads, 3)
+}
+
+// ruleScanIndex (C06-SCAN): a counter that a loop moves by itself (i--, i++, i += k) and that is used as an index
+// or slice bound inside that loop is compared with something on the way to that use - the use is control
+// dependent on an ordering or equality test of the counter made inside the loop.  A scan like
+// `for pred(lines[i]) { i-- }` ends, on input without a sentinel, in an index-out-of-range panic that takes the
+// server down.  Only request-path code (reachable from a handler or a goroutine it starts) is examined.
+func ruleScanIndex(c *Ctx) {
+	ci := buildConc(c)
+	n := 0
+	derived := func(v ssa.Value, phi *ssa.Phi) bool {
+		for d := 0; d < 4; d++ {
+			v = stripConv(v)
+			if v == ssa.Value(phi) {
+				return true
+			}
+			bo, ok := v.(*ssa.BinOp)
+			if !ok || (bo.Op != token.ADD && bo.Op != token.SUB) {
+				return false
+			}
+			if _, isConst := bo.Y.(*ssa.Const); isConst {
+				v = bo.X
+			} else if _, isConst := bo.X.(*ssa.Const); isConst && bo.Op == token.ADD {
+				v = bo.Y
+			} else {
+				return false
+			}
+		}
+		return false
+	}
+	isCmp := map[token.Token]bool{token.LSS: true, token.LEQ: true, token.GTR: true, token.GEQ: true, token.NEQ: true, token.EQL: true}
+	for _, f := range ci.funcs {
+		if !(ci.reachH[f] || ci.reachG[f]) || f.Blocks == nil {
+			continue
+		}
+		loopNo := 0
+		for _, hb := range f.Blocks {
+			for _, ins := range hb.Instrs {
+				phi, ok := ins.(*ssa.Phi)
+				if !ok {
+					break
+				}
+				if !isIntType(phi.Type()) || !inCycle(hb) {
+					continue
+				}
+				loopNo++
+				// moved by itself: an edge from inside the loop that is phi +- something
+				self := false
+				for i, e := range phi.Edges {
+					if i < len(hb.Preds) && reachesBlock(hb, hb.Preds[i]) {
+						if bo, ok := stripConv(e).(*ssa.BinOp); ok && (bo.Op == token.ADD || bo.Op == token.SUB) && (stripConv(bo.X) == ssa.Value(phi) || stripConv(bo.Y) == ssa.Value(phi)) {
+							self = true
+						}
+					}
+				}
+				if !self {
+					continue
+				}
+				// blocks of the loop: reachable from the header and reaching it
+				var uses []ssa.Instruction
+				for _, b := range f.Blocks {
+					if !(b == hb || (reachesBlock(hb, b) && reachesBlock(b, hb))) {
+						continue
+					}
+					for _, in2 := range b.Instrs {
+						switch x := in2.(type) {
+						case *ssa.Index:
+							if derived(x.Index, phi) {
+								uses = append(uses, in2)
+							}
+						case *ssa.IndexAddr:
+							if derived(x.Index, phi) {
+								uses = append(uses, in2)
+							}
+						case *ssa.Slice:
+							if (x.Low != nil && derived(x.Low, phi)) || (x.High != nil && derived(x.High, phi)) {
+								uses = append(uses, in2)
+							}
+						}
+					}
+				}
+				for k, u := range uses {
+					n++
+					tested := false
+					var conds []ctrlCond
+					conds = append(conds, controlCondsPol(u.Block())...)
+					for _, cc := range conds {
+						for w := range backSlice(cc.Cond) {
+							bo, ok := w.(*ssa.BinOp)
+							if !ok || !isCmp[bo.Op] {
+								continue
+							}
+							if derived(bo.X, phi) || derived(bo.Y, phi) {
+								tested = true
+							}
+						}
+					}
+					name := phi.Comment
+					if name == "" {
+						name = phi.Name()
+					}
+					c.check(tested, "C06-SCAN", funcName(f), fmt.Sprintf("index by the loop counter %s (counter %d) #%d", name, loopNo, k), u.Pos(),
+						"the use is control dependent on a comparison of the counter made inside the loop",
+						"the counter "+name+" is moved by the loop and used as an index or slice bound, but no comparison of it guards that use: on input without the expected sentinel the scan runs off the end of the slice (index out of range) and the panic takes the server down")
+				}
+			}
+		}
+	}
+	c.census("C06-SCAN", "index uses of self-moved loop counters on request paths", n, 1)
+}
+
+// ruleTreeMemo (S-TREEMEMO): an include tree that request handlers keep in a map of the server and answer from
+// depends on every file of the tree, not only on the document it is filed under.  Such a memo must therefore be
+// emptied as a whole - a Range that deletes, or Clear - on the synchronous path of the change handler and of the
+// save handler; a Delete under the URI of the notification leaves the trees of the documents that include the
+// changed file in place, and answers keep aggregating the file as it was.  (The tree published by the background
+// analysis is not such a memo: it is replaced by every analysis.)
+func ruleTreeMemo(c *Ctx) {
+	ci := buildConc(c)
+	spk := c.P.SSAPkg("internal/server")
+	type use struct {
+		f    *ssa.Function
+		call *ssa.Call
+	}
+	stores, wipes := map[string][]use{}, map[string][]use{}
+	deletesIn := func(fn *ssa.Function, fld string) bool {
+		for _, b := range fn.Blocks {
+			for _, ins := range b.Instrs {
+				if call, ok := ins.(*ssa.Call); ok {
+					if f2, ok := isSyncMapCall(call, "Delete"); ok && f2 == fld {
+						return true
+					}
+				}
+			}
+		}
+		return false
+	}
+	for _, f := range c.P.ModuleFuncs() {
+		top := f
+		for top.Parent() != nil {
+			top = top.Parent()
+		}
+		if top.Pkg != spk {
+			continue
+		}
+		for _, b := range f.Blocks {
+			for _, ins := range b.Instrs {
+				call, ok := ins.(*ssa.Call)
+				if !ok {
+					continue
+				}
+				fld, op, _, val, ok := syncMapOpOf(call)
+				if !ok || !strings.HasPrefix(fld, "server.Server.") {
+					continue
+				}
+				switch op {
+				case "Store", "LoadOrStore", "Swap":
+					if val == nil {
+						continue
+					}
+					t := val.Type()
+					if mi, ok := val.(*ssa.MakeInterface); ok {
+						t = mi.X.Type()
+					}
+					if typeReaches(t, "include.ResolvedJournal", map[types.Type]bool{}) {
+						stores[fld] = append(stores[fld], use{f, call})
+					}
+				case "Clear":
+					wipes[fld] = append(wipes[fld], use{f, call})
+				case "Range":
+					for _, a := range call.Call.Args {
+						var fn *ssa.Function
+						switch x := a.(type) {
+						case *ssa.MakeClosure:
+							fn, _ = x.Fn.(*ssa.Function)
+						case *ssa.Function:
+							fn = x
+						}
+						if fn != nil && deletesIn(fn, fld) {
+							wipes[fld] = append(wipes[fld], use{f, call})
+						}
+					}
+				}
+			}
+		}
+	}
+	// the handlers that learn of a changed file
+	type hd struct {
+		f    *ssa.Function
+		role string
+	}
+	var handlers []hd
+	if h, _, _, _ := changeHandler(c.P); h != nil {
+		handlers = append(handlers, hd{h, "change"})
+	}
+	for _, f := range c.P.ModuleFuncs() {
+		if f.Pkg != spk || f.Signature.Recv() == nil || f.Parent() != nil {
+			continue
+		}
+		for i := 0; i < f.Signature.Params().Len(); i++ {
+			if strings.HasSuffix(types.TypeString(f.Signature.Params().At(i).Type(), nil), "protocol.DidSaveTextDocumentParams") {
+				handlers = append(handlers, hd{f, "save"})
+			}
+		}
+	}
+	var fields []string
+	for fld, us := range stores {
+		onRequest := false
+		for _, u := range us {
+			if ci.reachH[u.f] && (u.f.Parent() == nil || ci.reachH[u.f.Parent()]) {
+				onRequest = true
+			}
+		}
+		if onRequest {
+			fields = append(fields, fld)
+		}
+	}
+	sort.Strings(fields)
+	c.note("S-TREEMEMO: include trees kept by request handlers: %v; handlers: %d", fields, len(handlers))
+	c.census("S-TREEMEMO", "change and save handlers", len(handlers), 2)
+	for _, fld := range fields {
+		for _, h := range handlers {
+			reach := Reach(ci.g, []*ssa.Function{h.f}, true)
+			wiped := false
+			for _, u := range wipes[fld] {
+				if reach[u.f] && (u.f.Parent() == nil || reach[u.f.Parent()]) {
+					wiped = true
+				}
+			}
+			c.check(wiped, "S-TREEMEMO", funcName(h.f), "memo "+strings.TrimPrefix(fld, "server.Server.")+" emptied on "+h.role, h.f.Pos(),
+				"the handler empties the memo of include trees as a whole",
+				"request handlers keep include trees in "+fld+" and answer from them, but the "+h.role+" handler does not empty that memo as a whole (a Range that deletes, or Clear): the tree of a document that includes the changed file stays in place and answers keep aggregating the file as it was before the change")
+		}
+	}
+}
+
+// ruleServerCaches: C-CACHE and C-FRESH for properties other than C01 (answers that span files are computed from
+// the current texts only if no handler-filled cache survives a change and no handler answers from the state the
+// background analysis leaves behind).
+func ruleServerCaches(c *Ctx) {
+	h, _, store, docField := changeHandler(c.P)
+	if h == nil {
+		c.undecided("C-CACHE", "server", "change handler", token.NoPos, "the handler that folds content changes into the document store was not found")
+		return
+	}
+	ruleCacheFresh(c, h, store, docField)
 }
